@@ -21,6 +21,19 @@ def floatReward (k : Nat) : Int :=
 
 def mainBase : Nat := 304414003
 
+/-- `Fixed64(float64(t) * c)` (truncating conversion) -/
+def truncMul (c : Float) (t : Fixed64) : Fixed64 :=
+  ofInt (goInt64 ((Int64.ofInt (toInt t)).toFloat * c))
+
+/-- "<utxo> <fee>" pairs of a `gen` op: the fees of the transfers the pool accepts
+    (MinTransactionFee ≤ fee ≤ the spent 1000 ELA) -/
+def genFees : List String → List Int
+  | _ :: fee :: rest =>
+    match int? fee with
+    | some f => if 100 ≤ f ∧ f ≤ 100000000000 then f :: genFees rest else genFees rest
+    | none => genFees rest
+  | _ => []
+
 def parseAddr (s : String) : Addr :=
   match s with
   | "cr" => .crAssets
@@ -91,6 +104,15 @@ def stepC11 : List String → String
         | .legacy => "legacy"
       | none => "bad-op"
     | _, _, _, _, _ => "bad-op"
+  | "gen" :: _ntx :: rest =>
+    let fs := genFees rest
+    let fees : Fixed64 := ofInt (fs.foldl (· + ·) 0)
+    let reward : Fixed64 := ofInt 502283105      -- regnet block 2: the pre-2023 subsidy
+    let total := fees + reward
+    let outs := assignLegacy (truncMul 0.3) (truncMul 0.35) total (.other 1000001) (.other 1000000) (.other 1000001)
+    toString fs.length ++ " " ++ fmtOuts outs ++ " | " ++
+      (if coinbaseLegacyCheck fees reward outs then "ok" else "err") ++ " | " ++
+      toString (toInt fees) ++ " " ++ toString (toInt (dp35 total))
   | ["asg", h, active, pow, fees, reward] =>
     match nat? h, nat? active, int? fees, int? reward with
     | some h, some active, some fees, some reward =>
